@@ -1,15 +1,16 @@
 """C18 - see properties.jsonl; DESIGN.md section 5."""
 from ._generic import run_property
 
-EXPLANATION = 'Bounded stand-in: every kind of rejection x position x existing dataset state: raises and leaves the dataset as it was.'
+EXPLANATION = 'Mixed. P: writer.write_simple.write_to_file is executed symbolically from its real source on the byte-file model (make_row_group by contract: writes only at/after the current position): exceptional postcondition `a failed append leaves the file as it was` - REFUTED whenever a byte was written (known finding: the old footer is the first thing overwritten). B (labelled bounded): every kind of rejection x position x existing dataset state: raises and leaves the dataset as it was.'
 
 
 def p_parts():
-    return []
+    from ._append import p_append
+    return [p_append]
 
 
 def run(ctx):
-    return run_property(ctx, 'exploration', EXPLANATION, p_parts=p_parts(), b_modules=['c18_rejections'],
+    return run_property(ctx, 'other', EXPLANATION, p_parts=p_parts(), b_modules=['c18_rejections'],
                         assumptions=["pandas / numpy / cramjam behaviour inside every opaque value",
                                      "the oracle (plain pandas / the spec library under /verif/spec) is a faithful reading of the property"],
                         trusted=["bounded layer: enumerated inputs only; nothing outside the stated bound is covered"])
